@@ -9,9 +9,10 @@ operators and brackets in operand position).  Proved here (proofs in Garnish/Lem
     separators), for any table whose right-to-left flag agrees with its token classes; `C02_gen_rtlAgrees` discharges
     that hypothesis for the generated table;
   * the core operations keep the in-order token sequence (`C02_attach_inorder`, `C02_plug_inorder`);
-The end-to-end statements (`refParse_inorder`: in-order of the result = significant tokens; `precOK_unique`;
-`parse` agrees with `refParse`) are stated as `def .. : Prop`; agreement of the real parser with `refParse` is checked by
-the REFPARSE/TREECHK suites on every accepted generated input.
+  * `C02_refParse_inorder`: the in-order walk of the reference tree = the significant tokens in source order;
+  * `C02_precOK_unique`: in the atoms + brackets + binary operators fragment `PrecOK` and the item sequence determine the tree.
+Agreement of the real parser with `refParse` is checked by the REFPARSE/TREECHK suites on every accepted generated input
+(and proved for a fragment in Garnish/Lemmas/ParserInv.lean as far as stated there).
 -/
 import Garnish.Spec.RefParse
 import Garnish.Lemmas.RefParse
@@ -62,13 +63,94 @@ theorem C02_plug_precOK (tbl : Table) (rtlf : Definition → Bool) (t x : RTree)
     (hx : PrecOK tbl rtlf x) (hop : OperandLike x) : PrecOK tbl rtlf (plug t x) :=
   plug_precOK tbl rtlf t x ht hx hop
 
-/-- full statement (NOT proved; proof sketch: in a `PrecOK` tree of the fragment priorities do not increase downwards, so
-    the root is the rightmost (left-to-right level) resp. leftmost (right-to-left level) operator of maximal priority of
-    the item sequence, which determines the split): the precedence condition determines the tree — two trees of the
-    atoms + binary operators fragment with the same in-order item sequence that both satisfy `PrecOK` are equal -/
-def C02_precOK_unique : Prop :=
-  ∀ (tbl : Table) (rtlf : Definition → Bool), Consistent tbl rtlf →
-    ∀ (t1 t2 : RTree), binFrag t1 = true → binFrag t2 = true → allPrio tbl t1 = true → allPrio tbl t2 = true →
-      PrecOK tbl rtlf t1 → PrecOK tbl rtlf t2 → items t1 = items t2 → t1 = t2
+/-- **the in-order walk of the reference tree is exactly the significant tokens, in source order**: every token that is not
+    whitespace, an annotation, a closer or a redundant separator (`Spec.significant`) stands for exactly one node, the
+    synthesized `List` nodes aside; nothing is dropped, duplicated or reordered -/
+theorem C02_refParse_inorder (toks : List PToken) (t : RTree) (h : refParse Table.gen toks = .ok t) :
+    t.inorderSig = significant toks :=
+  refParse_inorder toks t h
+
+theorem C02_refParse_inorder_spec (toks : List PToken) (t : RTree) (h : refParse Table.spec toks = .ok t) :
+    t.inorderSig = significant toks := by
+  rw [← C02_bridge_table] at h; exact refParse_inorder toks t h
+
+/-- in the generated table only `Pair` groups right-to-left and it is alone at its priority -/
+theorem C02_gen_consistent : Consistent Table.gen Table.gen.rtl := by
+  have hrtl : ∀ d, Table.gen.rtl d = (d == Definition.pair) := by intro d; cases d <;> rfl
+  have hpair : ∀ d, Table.gen.prio d = Table.gen.prio Definition.pair → d = Definition.pair := by
+    intro d; cases d <;> simp [Table.gen, priority]
+  intro d1 d2 p h1 h2
+  rw [hrtl, hrtl]
+  by_cases e1 : d1 = Definition.pair
+  · subst e1
+    have : d2 = Definition.pair := hpair d2 (by rw [h2, h1])
+    subst this; rfl
+  · by_cases e2 : d2 = Definition.pair
+    · subst e2
+      exact absurd (hpair d1 (by rw [h1, h2])) e1
+    · rw [beq_eq_false_iff_ne.mpr e1, beq_eq_false_iff_ne.mpr e2]
+
+/-- **the precedence condition determines the tree** (atoms, closed brackets as atoms, binary operators): two trees with the
+    same in-order item sequence that both satisfy `PrecOK` are equal — "the tree the table dictates" is well defined -/
+theorem C02_precOK_unique (tbl : Table) (rtlf : Definition → Bool) (hc : Consistent tbl rtlf) (t1 t2 : RTree)
+    (hb1 : binFrag t1 = true) (hb2 : binFrag t2 = true) (ha1 : allPrio tbl t1 = true) (ha2 : allPrio tbl t2 = true)
+    (h1 : PrecOK tbl rtlf t1) (h2 : PrecOK tbl rtlf t2) (hi : items t1 = items t2) : t1 = t2 :=
+  precOK_unique tbl rtlf hc t1 t2 hb1 hb2 ha1 ha2 h1 h2 hi
+
+/-- instance for the generated table -/
+theorem C02_precOK_unique_gen (t1 t2 : RTree) (hb1 : binFrag t1 = true) (hb2 : binFrag t2 = true)
+    (ha1 : allPrio Table.gen t1 = true) (ha2 : allPrio Table.gen t2 = true)
+    (h1 : PrecOK Table.gen Table.gen.rtl t1) (h2 : PrecOK Table.gen Table.gen.rtl t2) (hi : items t1 = items t2) : t1 = t2 :=
+  precOK_unique Table.gen Table.gen.rtl C02_gen_consistent t1 t2 hb1 hb2 ha1 ha2 h1 h2 hi
+
+/-- consequence: in the fragment the reference tree is THE tree with that item sequence that satisfies the table -/
+theorem C02_refParse_is_the_tree (toks : List PToken) (t t' : RTree) (h : refParse Table.gen toks = .ok t)
+    (hb : binFrag t = true) (hb' : binFrag t' = true) (ha : allPrio Table.gen t = true) (ha' : allPrio Table.gen t' = true)
+    (hok' : PrecOK Table.gen Table.gen.rtl t') (hi : items t' = items t) : t' = t :=
+  precOK_unique Table.gen Table.gen.rtl C02_gen_consistent t' t hb' hb ha' ha hok' (C02_refParse_precOK_gen toks t h) hi
+
+/-! ### the transliterated parser on the binary-operator fragment (statement; proved parts in Lemmas/ParserInv.lean) -/
+
+/-- the implementation-side tree as a reference tree (definitions looked up in the node array; brackets do not occur
+    in the fragment) -/
+def treeToR (r : ParseResult) : Tree → RTree
+  | .nil => .nil
+  | .node l i k rt =>
+    .node (treeToR r l) ((r.nodes[i]?).map (·.definition) |>.getD .drop) k (treeToR r rt)
+
+def isAtomTok (t : PToken) : Bool :=
+  ((getDefinition t.type).2 == .value || (getDefinition t.type).2 == .identifier) &&
+    (getDefinition t.type).1 != .drop && (getDefinition t.type).1 != .expressionTerminator
+def isBinTok (t : PToken) : Bool :=
+  (getDefinition t.type).2 == .binaryLeftToRight || (getDefinition t.type).2 == .binaryRightToLeft
+def isWsTok (t : PToken) : Bool := t.type == .whitespace
+
+/-- `atom (ws? binop ws? atom)*` -/
+def binShape : List PToken → Bool
+  | [] => false
+  | [a] => isAtomTok a
+  | a :: rest =>
+    isAtomTok a &&
+      (match rest with
+       | w1 :: o :: w2 :: rest' =>
+         (isWsTok w1 && isBinTok o && isWsTok w2 && binShape rest') || (isWsTok w1 && isBinTok o && binShape (w2 :: rest'))
+           || (isBinTok w1 && isWsTok o && binShape (w2 :: rest')) || (isBinTok w1 && binShape (o :: w2 :: rest'))
+       | [o, b] => isBinTok o && isAtomTok b
+       | _ => false)
+
+def numbered : List PToken → Nat → List PToken
+  | [], _ => []
+  | t :: rest, k => { t with col := k } :: numbered rest (k + 1)
+
+/-- the fragment claim for the transliterated parser (NOT proved end to end): on `atom (ws? binop ws? atom)*` over binary
+    operators of any priorities, `parse` accepts, the result is a proper tree and it is the reference tree.
+    Proved pieces (Garnish/Lemmas/ParserInv.lean): `walkLoop_chain` (on a parent chain the capped walk of `parse_token`
+    never hits its cap and returns exactly the bottom-up search `walkSpec` that `Spec.absorb` performs),
+    `parseToken_size_def`, `step_binop_post` (state after an operator token), `step_trivia` / `step_atom_indep` /
+    `loop_binop_trivia_atom` (whitespace between operator and atom is invisible); missing: the array-level simulation
+    "nodes represent the tree `T` with right spine `c`" ⇒ "after `parse_token` they represent `attach T`". -/
+def C02_modelParse_binary_partial : Prop :=
+  ∀ toks, binShape toks = true →
+    ∃ r t, parse (numbered toks 0) = .ok r ∧ toTree r = some t ∧ refParse Table.gen toks = .ok (treeToR r t)
 
 end Garnish.Props.C02
